@@ -96,6 +96,7 @@ class Imputer(_SeriesToSeriesTransformer):
 
         if self.method == "random":
             if isinstance(Z, pd.DataFrame):
+                Z = Z.copy()
                 for col in Z:
                     Z[col] = Z[col].apply(
                         lambda i: self._get_random(Z[col]) if np.isnan(i) else i
